@@ -465,6 +465,14 @@ def check_case(ctx, case, answers):
                 refs.append(ref)
                 for c in cols:
                     if not failed and not close(obs[k]["out"][c], ref[c]):
+                        nvalid = sum(1 for v in case[c][:p] if v is not None)
+                        if case["agg"] in ("var", "std") and case.get("ddof", 1) >= 2 and 1 <= nvalid <= case["ddof"] and ref[c] != ref[c]:
+                            # aggregations.Var divides by n - ddof without looking at its sign: inf (n == ddof) or a negated value
+                            # (n < ddof) where pandas says NaN - recorded finding, only reachable with ddof >= 2
+                            ctx.failure("var-ddof>=2:n<=ddof", "expanding().%s(ddof=%d) column %s after batch %d of %r: %d valid value(s) so far, "
+                                        "emitted %r, pandas NaN" % (case["agg"], case["ddof"], c, k, sizes, nvalid, obs[k]["out"][c]), case,
+                                        expected=ref[c], observed=obs[k]["out"][c])
+                            continue
                         failed = True
                         ctx.failure(sig, "expanding().%s column %s after batch %d of %r: emitted %r, pandas on the %d rows so far %r"
                                     % (case["agg"], c, k, sizes, obs[k]["out"][c], p, ref[c]), case, expected=ref[c],
@@ -479,6 +487,8 @@ def check_case(ctx, case, answers):
                         p += sizes[k]
                         m = blk[1 + k]
                         mv = post(case, rat(m["out"]))
+                        if case["agg"] in ("var", "std") and case.get("ddof", 1) >= 2 and 1 <= sum(1 for v in case[c][:p] if v is not None) <= case["ddof"]:
+                            continue        # the recorded finding var-ddof>=2:n<=ddof: the model (like pandas) says NaN there
                         if not close(o["out"][c], mv):
                             good = False
                             ctx.disagreement("expanding %s batch %d col %s: impl %r model %r" % (case["agg"], k, c, o["out"][c], mv), case)
@@ -696,7 +706,7 @@ def exp_params(rng, i=None):
     a = EXP_AGGS[i % len(EXP_AGGS)] if i is not None else rng.choice(EXP_AGGS)
     p = {"kind": "exp", "agg": a}
     if a in ("var", "std"):
-        p["ddof"] = rng.choice([1, 1, 0])
+        p["ddof"] = rng.choice([1, 1, 0, 2, 3])
     return p
 
 
@@ -774,6 +784,9 @@ CORPUS = [
     {"kind": "exp", "agg": "mean", "frame": "df", "times": [0, 1, 2, 3], "x": [None, 1, 2, None], "y": [None, None, None, 3], "sizes": [0, 1, 0, 2, 1]},
     {"kind": "exp", "agg": "var", "ddof": 1, "frame": "df", "times": [0, 1, 2, 3, 4], "x": [1, None, 2, 4, 4], "y": [None, 2, 2, None, 2], "sizes": [0, 2, 1, 0, 2]},
     {"kind": "exp", "agg": "std", "ddof": 0, "frame": "df", "times": [0, 1, 2], "x": [1, 3, 0], "y": [2, None, 1], "sizes": [1, 1, 1]},
+    # ddof >= 2 (recorded finding while no more than ddof values have been seen; exact afterwards)
+    {"kind": "exp", "agg": "var", "ddof": 2, "frame": "df", "times": [0, 1, 2, 3, 4], "x": [1, 3, 2, 5, 4], "y": [None, 2, 2, None, 6], "sizes": [1, 1, 1, 2]},
+    {"kind": "exp", "agg": "std", "ddof": 3, "frame": "df", "times": [0, 1, 2, 3, 4, 5], "x": [1, 3, 2, 5, 4, 0], "y": [0, 0, 0, 0, 0, 0], "sizes": [2, 1, 2, 1]},
     {"kind": "exp", "agg": "count", "frame": "series", "times": [0, 1, 2], "x": [1, None, 0], "y": [0, 0, 0], "sizes": [0, 2, 1]},
     {"kind": "exp", "agg": "mean", "frame": "series", "times": [0, 1, 2], "x": [1, None, 4], "y": [0, 0, 0], "sizes": [1, 0, 2]},
     {"kind": "exp", "agg": "mean", "frame": "series", "times": [0, 1, 2], "x": [1, 2, 3], "y": [0, 0, 0], "sizes": [0, 3]},
